@@ -179,7 +179,7 @@ EXPORT void tfhe_bootstrap_woKS_FFT(LweSample *result,
     const int32_t n = in_params->n;
 
     TorusPolynomial *testvect = new_TorusPolynomial(N);
-    int32_t *bara = new int32_t[N];
+    int32_t *bara = new int32_t[n];
 
 
     // Modulus switching
